@@ -81,6 +81,21 @@ CHECKS = {
    "For every damaged state all read operations and a new backup are run under catch_unwind with a watchdog; a reference listing with provenance (band, hunk file, block files) decides, per file entry, which obligation applies.",
    "Quick tier samples a third of the (file, damage) pairs per archive; hunks altered but still decodable carry only the no-crash obligation; deleting the last hunk of an incomplete band is a legal state.",
    "DESIGN.md 5 C10"),
+ "C06": ("exploration",
+   "schedule exploration under a deterministic scheduler that owns every storage operation of both actors (verif_hooks interceptor): bounded-preemption enumeration over switch points derived from solo traces + generated random schedules, inside a property-based scenario generator that constructs the hazard",
+   "The harness parks each actor (its own OS thread and runtime) before every storage operation and releases exactly one at a time, so an execution is a pure function of the schedule value, which is enumerated (all <=2-switch schedules over the bracketing points of every lock/list/mutating operation, all 3-switch schedules over the critical points) and generated (random segment lists). Scenarios are built so that garbage blocks reappear in the new source. Exploration, not model checking: the bound and the point selection are stated, not exhaustive.",
+   "Sequentially consistent storage, atomic transport operations; S3-style eventual consistency is out of reach.",
+   "DESIGN.md 5 C06"),
+ "C07": ("exploration",
+   "logged-trace invariant over generated histories (every storage operation with the pre-state of its path, directory bytes before/after) + deterministic-scheduler race of two backups with enumerated <=2-switch and generated schedules + direct transport contract probe",
+   "Write-once is checked three ways: the directory's bytes before and after every step of generated histories, the logged operation stream (no write to a non-empty path, no double write, no remove during backup; removals of delete/gc confined to what the independent scan allows), and races of two backups of differing sources in which every version must be written by one actor only.",
+   "Transport-operation granularity; sequentially consistent local storage.",
+   "DESIGN.md 5 C07"),
+ "C17": ("exploration",
+   "differential replay: the same generated history into two fresh archives under different runtime flavours, unserialized storage operations and generated timing perturbation; byte comparison modulo the two timestamp keys",
+   "Each history is replayed on a current-thread runtime with serialized storage operations and on a multi-thread runtime (1, 2 or 4 workers) with overlapping storage operations perturbed by generated yields/sleeps; after every archive operation the two directories must be identical except for start_time/end_time.",
+   "Evidence about scheduling-independence, not a proof over all schedules.",
+   "DESIGN.md 5 C17"),
 }
 
 NOT_BUILT_REASON = "check not built yet in this session (planned, see DESIGN.md section 5); not claimed until its command exists and is silent on the unchanged tree"
